@@ -40,7 +40,7 @@ var strVals = []Leaf{{Text: "foo", Kind: "str", Str: "foo"}, {Text: "bar", Kind:
 	// backslash sequences inside quotes are verbatim text; quoted digits are strings, not numbers
 	{Text: `"C:\temp\new"`, Kind: "str", Str: `C:\temp\new`}, {Text: `"a\\b"`, Kind: "str", Str: `a\\b`}, {Text: `"\u00e9"`, Kind: "str", Str: `\u00e9`},
 	{Text: `"a  b"`, Kind: "str", Str: "a  b"}, {Text: "\"a\tb\"", Kind: "str", Str: "a\tb"}, {Text: `" a b "`, Kind: "str", Str: " a b "},
-	{Text: `"l'été"`, Kind: "str", Str: "l'été"}, {Text: `"日本's"`, Kind: "str", Str: "日本's"}, {Text: `""`, Kind: "str", Str: ""},
+	{Text: "\"a\ufffdb\"", Kind: "str", Str: "a\ufffdb"}, {Text: `"l'été"`, Kind: "str", Str: "l'été"}, {Text: `"日本's"`, Kind: "str", Str: "日本's"}, {Text: `""`, Kind: "str", Str: ""},
 	{Text: `"007"`, Kind: "str", Str: "007"}, {Text: `"9"`, Kind: "str", Str: "9"}, {Text: `"1.5"`, Kind: "str", Str: "1.5"}, {Text: `"+3"`, Kind: "str", Str: "+3"}}
 
 var strValsComma = []Leaf{{Text: `"x,y"`, Kind: "str", Str: "x,y"}}
@@ -64,10 +64,16 @@ type fgen struct {
 
 func (g *fgen) tag(t string) { g.tags[t] = true }
 
+// decimals with many significant digits (equality, comparisons and value lists only: ranges print %.2f)
+var decValsLong = []Leaf{{Text: "12345678.125", Kind: "float", Flt: 12345678.125}, {Text: "16777217.5", Kind: "float", Flt: 16777217.5},
+	{Text: "3.1415926", Kind: "float", Flt: 3.1415926}, {Text: "0.1234567891", Kind: "float", Flt: 0.1234567891}, {Text: "-98765.4321", Kind: "float", Flt: -98765.4321}}
+
 func (g *fgen) numVal() Leaf {
-	switch g.r.Intn(10) {
+	switch g.r.Intn(11) {
 	case 0, 1, 2, 3, 4, 5:
 		return Pick(g.r, intVals)
+	case 6:
+		return Pick(g.r, decValsLong)
 	default:
 		return Pick(g.r, decVals2)
 	}
